@@ -48,7 +48,10 @@ def spec_of(job):
         _, seed = job
         rng = random.Random(seed)
         n = rng.randint(2, 20)
-        return GG.random_spec(rng, n), GG.random_names(rng, n)
+        sp, nm = GG.random_spec(rng, n), GG.random_names(rng, n)
+        if rng.random() < 0.4:
+            sp, nm = GG.add_name_clashes(rng, sp, nm)
+        return sp, nm
     raise ValueError(kind)
 
 
@@ -237,11 +240,14 @@ BAD_SCHEMA = {
     "array_no_items": {"type": "array"},
     "dangling_ref": {"$ref": REF + "DoesNotExist"},
     "remote_ref": {"$ref": "https://example.com/other.yaml#/components/schemas/Far"},
+    # a scheme-less relative FILE reference whose fragment names an EXISTING local component (filled in by insert()): it must be
+    # rejected like any other non-local reference, not silently resolved against this document
+    "relative_file_ref": {"$ref": "common.json#/components/schemas/<existing>"},
     "invalid_default": {"type": "integer", "default": "abc"},
     "mixed_enum": {"enum": [1, "a"]},
 }
 SCHEMA_POS = ["prop", "item", "union", "addl", "allof"]
-OP_POS = ["param", "body", "response", "optional_path", "dup_params", "unparseable_body"]
+OP_POS = ["param", "body", "response", "optional_path", "dup_params", "unparseable_body", "param_file_ref"]
 
 
 def object_body(schema):
@@ -297,6 +303,12 @@ def insert(doc, pos, piece_name, tag="zz_bad"):
     """D + b: returns (new document, owner) or None when the combination does not apply; owner = ('schema', name) | ('op', METHOD path)"""
     d = copy.deepcopy(doc)
     b = copy.deepcopy(BAD_SCHEMA.get(piece_name, {"type": "array"}))
+    if piece_name == "relative_file_ref":
+        others = [n for n in doc["components"]["schemas"] if not (pos[0] == "schema" and n == pos[1])]
+        if not others:
+            return None
+        k = sum(map(ord, str(pos))) % len(others)
+        b = {"$ref": ("common.json", "./shared/defs.yaml")[k % 2] + REF + others[k]}
     if pos[0] == "schema":
         _, name, p = pos
         s = d["components"]["schemas"][name]
@@ -347,6 +359,10 @@ def insert(doc, pos, piece_name, tag="zz_bad"):
         key = f"{method.upper()} {np}"
     elif p == "dup_params":
         op.setdefault("parameters", []).extend([{"name": tag, "in": "query", "schema": {"type": "string"}}, {"name": tag, "in": "query", "schema": {"type": "integer"}}])
+    elif p == "param_file_ref":
+        # a parameter by relative-file reference whose fragment names an existing local parameter component
+        d["components"].setdefault("parameters", {}).setdefault("Limit", {"name": "limit", "in": "query", "schema": {"type": "integer"}})
+        op.setdefault("parameters", []).append({"$ref": "./shared/params.yaml#/components/parameters/Limit"})
     elif p == "unparseable_body":
         if "requestBody" in op:
             return None
